@@ -3,15 +3,16 @@
 # run the given quick checks against it (applied to /repo, restored afterwards).
 set -u
 P="$1"; K="$2"; PROPS="$3"
-SRC=/tmp/mut/$P/OUT/$K
-DST=/verif/seeded/$P-$K
+SRC=${SEED_SRC:-/tmp/mut}/$P/OUT/$K
+N=${SEED_NAME:-$K}
+DST=/verif/seeded/$P-$N
 mkdir -p "$DST"
 cp "$SRC/patch.diff" "$DST/patch.diff"
 cp "$SRC"/*.rs "$DST/" 2>/dev/null
 cp "$SRC/notes.md" "$DST/notes.md" 2>/dev/null
 RES=$(/verif/tools/mutant.sh "$DST/patch.diff" "$PROPS" 2>&1)
 echo "$RES"
-python3 - "$P" "$K" "$DST" <<PY
+python3 - "$P" "$N" "$DST" <<PY
 import json,sys,re
 p,k,dst=sys.argv[1:4]
 res = """$RES"""
